@@ -371,6 +371,7 @@ class Prog:
         self.ref[(0,) * N] = 1.0
         self.has_psi0 = False
         self.psi0_kind = "none"
+        self.psi0_cls = "none"
         if self.kind not in ("PEPS", "PEPO") and N >= 2 and rng.integers(0, 5) == 0:
             # an entangled MPS (bond 2), a product state with normalised factors, or (rarely) a product state whose
             # factors are only normalised as a whole
@@ -388,6 +389,13 @@ class Prog:
             self.ref = mps_dense(arrs).astype(complex)
             psi0 = qtn.MatrixProductState(arrs)
             self.has_psi0 = True
+            self.psi0_cls = "mps"
+            if self.kind in ("Circuit", "CircuitDense") and rng.integers(0, 2):
+                # the same state as a plain 1D vector network (no MatrixProductState methods)
+                from quimb.tensor.tn1d.core import TensorNetwork1DVector
+
+                psi0 = psi0.view_as(TensorNetwork1DVector, like=psi0)
+                self.psi0_cls = "tn1d"
         kw = {}
         if psi0 is not None:
             kw["psi0"] = psi0
@@ -458,7 +466,7 @@ class Prog:
         self.idle = [True] * N  # wires whose initial-state tensor still carries the output label
 
     def base(self):
-        d = dict(prog=self.pid, cls=self.kind, N=self.N, style=self.style, psi0=self.psi0_kind,
+        d = dict(prog=self.pid, cls=self.kind, N=self.N, style=self.style, psi0=self.psi0_kind, psi0cls=self.psi0_cls,
                  quirks="+".join(sorted(self.quirks)))
         d.update({k: str(v) for k, v in self.opts.items()})
         return d
@@ -466,6 +474,10 @@ class Prog:
     def tol(self, single=False):
         if single or self.single:
             return 2e-4
+        if self.kind == "CircuitMPSLazy" or (self.kind == "CircuitMPS" and self.opts.get("gate_contract") != "swap+split"):
+            # gates routed through gate_nonlocal / gate_with_submpo are first decomposed into an MPO with the default
+            # cutoff 1e-10 (relative discarded weight), whatever the circuit's own cutoff
+            return 1e-4
         if self.kind == "CircuitMPSLazy" and self.opts.get("method") == "dm":
             return 1e-6 if self.tight else 1e-4
         if self.tight:
@@ -651,8 +663,6 @@ def do_gate(cx, P, g, tag="gate"):
         elif g["label"] != "IDEN" or g["controls"]:
             for q in list(g["qubits"]) + list(g["controls"]):
                 P.idle[q] = False
-        if g["label"] == "SWAP" and P.kind == "CircuitMPS" and P.opts.get("gate_contract") in ("auto-mps", "swap+split"):
-            P.flags["mps_record_risk"] = "swap"
     # accepted or rejected: the simulator must hold the state of the gates actually recorded
     res = {}
 
